@@ -7,8 +7,16 @@ S4 search    : an independent python oracle (architectural decoders written from
                answer of the implementation; a disagreement model/implementation is localised to single inputs and judged too
 """
 import random
+import re
 import vlib
 from concurrent.futures import ThreadPoolExecutor
+
+# Thumb-2 branch formats: the tree is probed on every run (probe_t32). "pinned" = the defective packers of the pinned tree
+# (known findings C17/thumb32-*), "fixed" = fixes/C17-thumb32-branch-formats.patch applied. The model variant is chosen
+# accordingly (ml/c17_driver.ml argv[1]); the python oracle below always judges against the architecture, so as soon as
+# the known_findings lines are flipped to kind=fixed a returning defect is a VIOLATION with a concrete offset.
+T32_VARIANT = {"v": "pp"}    # first letter: B.W/BL/BLX packer, second: B<c>.W packer; p = pinned (defective), f = fixed
+NLIST = [2, 7, 8, 9, 12, 14, 16, 19, 21, 24, 25, 26, 31, 32, 33, 48, 63, 64]
 
 M64 = (1 << 64) - 1
 TY = {"signed": 0, "unsigned": 1, "adr": 2, "adrp": 3, "t32_adr": 4, "t32_blx": 5, "t32_b": 6, "t32_bcond": 7,
@@ -38,7 +46,7 @@ def decode_field(ty, vs, bits, sh, dl, w):
         s = (w >> 26) & 1; j1 = (w >> 13) & 1; j2 = (w >> 11) & 1
         i1 = 1 - (j1 ^ s); i2 = 1 - (j2 ^ s)
         v = sext((s << 23) | (i1 << 22) | (i2 << 21) | (((w >> 16) & 0x3FF) << 11) | (w & 0x7FF), 24)
-        return v << 1   # value counts half-words
+        return v << 1   # imm32 = SignExtend(S:I1:I2:imm10:imm11:'0'): the field counts half-words whatever `discard` is
     if name == "t32_bcond":
         s = (w >> 26) & 1; j1 = (w >> 13) & 1; j2 = (w >> 11) & 1
         return sext((s << 19) | (j2 << 18) | (j1 << 17) | (((w >> 16) & 0x3F) << 11) | (w & 0x7FF), 20) << 1
@@ -93,7 +101,8 @@ def encodable(ty, vs, bits, sh, dl, off):
     if name == "unsigned":
         return 0 <= v < (1 << bits)
     if name in ("t32_b", "t32_blx", "t32_bcond"):
-        return None  # known-deviating formats: refusal is not judged
+        # the signed range test is shared with every other signed format and is right in both variants
+        return -(1 << (bits - 1)) <= v < (1 << (bits - 1))
     if name == "a32_adr":
         a = abs(off)
         if a >= (1 << bits):
@@ -144,6 +153,31 @@ def vfp_expand(n, imm8):
     return (sign << (n - 1)) | (exp << f) | ((imm8 & 15) << (f - 4))
 
 
+def ubfm_pseudocode(size, immr, imms, src):
+    """UBFM per the ARM ARM pseudo-code: (wmask, tmask) = DecodeBitMasks(N, imms, immr, FALSE); bot = ROR(src, R) AND wmask; result = bot AND tmask."""
+    n = 1 if size == 64 else 0
+    x = (n << 6) | ((~imms) & 0x3F)
+    ln = x.bit_length() - 1
+    if ln < 1:
+        return None
+    levels = (1 << ln) - 1
+    s_ = imms & levels; r_ = immr & levels
+    esize = 1 << ln
+    d = (s_ - r_) & levels
+    welem = (1 << (s_ + 1)) - 1; telem = (1 << (d + 1)) - 1
+    em = (1 << esize) - 1
+    wrot = ((welem >> r_) | (welem << (esize - r_))) & em if r_ else welem
+    wmask = 0; tmask = 0
+    for i in range(size // esize):
+        wmask |= wrot << (i * esize); tmask |= telem << (i * esize)
+    m = (1 << size) - 1
+    rot = ((src >> immr) | (src << (size - immr))) & m if immr else src
+    return rot & wmask & tmask
+
+
+BF_NAMES = ["bfxil", "sbfx", "ubfx", "bfi", "sbfiz", "ubfiz", "bfc", "bfm", "sbfm", "ubfm", "lsl", "lsr", "asr"]
+
+
 def run_movwide(words, init):
     reg = init
     for w in words:
@@ -181,7 +215,7 @@ OTHER_FORMATS = [
     ("t32 adr", TY["t32_adr"], 4, 12, 0, 0), ("a32 adr", TY["a32_adr"], 4, 12, 0, 0), ("a32 u23 12", TY["a32_u23"], 4, 12, 0, 0),
     ("a32 u23 8 d2", TY["a32_u23"], 4, 8, 0, 2), ("a32 u23 split", TY["a32_u23_split"], 4, 8, 0, 0),
     ("a32 blx", TY["a32_blx"], 4, 25, 0, 1),
-    ("t32 b", TY["t32_b"], 4, 24, 0, 1), ("t32 blx", TY["t32_blx"], 4, 22, 0, 2), ("t32 bcond", TY["t32_bcond"], 4, 20, 0, 1),
+    ("t32 b", TY["t32_b"], 4, 24, 0, 1), ("t32 blx", TY["t32_blx"], 4, 23, 0, 2), ("t32 bcond", TY["t32_bcond"], 4, 20, 0, 1),
     ("bad bits 0", TY["signed"], 4, 0, 0, 0), ("bad bits 40 in 4", TY["signed"], 4, 40, 0, 0), ("bad vsize 3", TY["signed"], 3, 8, 0, 0),
 ]
 KNOWN_BAD_TYPES = {"t32_b": "C17/thumb32-b-j1-at-bit14", "t32_blx": "C17/thumb32-blx-j1-at-bit14", "t32_bcond": "C17/thumb32-bcond-j-bits"}
@@ -191,7 +225,7 @@ def gen_stream(rng, tier):
     cmds = ["T"]
     fmts = USED_FORMATS + OTHER_FORMATS
     # R: range sweeps (summary hash) — the whole in-range interval plus a band outside when the field is small
-    rmax = 1 << (22 if tier == "quick" else 27)
+    rmax = 1 << (21 if tier == "quick" else 27)
     for (nm, ty, vs, bits, sh, dl) in fmts:
         if bits == 0 or bits > 8 * vs or vs == 3:
             cmds.append("R %d %d %d %d %d %d %d %d %d" % (ty, vs, bits, sh, dl, -1000, 2000, 1, 0))
@@ -286,7 +320,121 @@ def gen_stream(rng, tier):
     for sz in range(0, 5):
         for idx in range(0, 20):
             cmds.append("H %d %d" % (sz, idx))
+    # X: bit-field aliases through the real a64::Assembler: every (lsb, width) incl. one beyond the register, both sizes
+    for x in (0, 1):
+        size = 64 if x else 32
+        for kind in range(13):
+            if kind >= 10:
+                for sh in list(range(size + 2)) + [1 << 32, (1 << 32) + 1, M64]:
+                    cmds.append("X %d %d %d 0" % (kind, x, sh))
+                continue
+            full = kind in (2, 5, 6, 9) or tier == "thorough"
+            for a in range(size + 2):
+                for b in range(size + 2):
+                    if full or rng.random() < 0.12 or a + b in (size - 1, size, size + 1) or b in (0, 1) or a == 0:
+                        cmds.append("X %d %d %d %d" % (kind, x, a, b))
+            for (a, b) in ((1 << 32, 1), (1, 1 << 32), ((1 << 32) + 1, 1), (1, (1 << 32) + 1), (M64, M64), (0, M64)):
+                cmds.append("X %d %d %d %d" % (kind, x, a, b))
+    # E: is_encodable_offset_32/64 at exactly the limits of every bit count (both signs, +-2 around), plus random
+    for w in (32, 64):
+        for nb in range(1, w + 1):
+            lim = 1 << (nb - 1)
+            for base in (lim, -lim, 0):
+                for d in (-2, -1, 0, 1, 2):
+                    off = base + d
+                    if -(1 << (w - 1)) <= off < (1 << (w - 1)):
+                        cmds.append("E %d %d %d" % (w, off, nb))
+            for _ in range(4 if tier == "quick" else 60):
+                k = rng.randrange(1, w + 1)
+                cmds.append("E %d %d %d" % (w, sext(rng.getrandbits(k), k), nb))
+    # N: Support::is_int_n / is_uint_n for the instantiated N, at the limits (both signs) and random
+    for kind in range(6):
+        signed = kind in (0, 2, 4, 5)
+        tw = 32 if kind in (4, 5) else 64
+        lo_t, hi_t = (-(1 << (tw - 1)), (1 << (tw - 1)) - 1) if signed else (0, (1 << tw) - 1)
+        for n in NLIST:
+            pts = set([lo_t, hi_t, 0, 1, -1])
+            for base in ((1 << (n - 1)), -(1 << (n - 1)), (1 << n), -(1 << n)):
+                for d in (-1, 0, 1):
+                    pts.add(base + d)
+            for _ in range(6 if tier == "quick" else 100):
+                k = rng.randrange(1, tw + 1)
+                pts.add(sext(rng.getrandbits(k), k) if signed else rng.getrandbits(k))
+            for x in sorted(pts):
+                if lo_t <= x <= hi_t:
+                    cmds.append("N %d %d %d" % (kind, n, x))
     return cmds
+
+
+def limit_coverage(cmds):
+    """Explicit coverage counters: for every signed-range format of the stream, is the LAST accepted value and the FIRST
+    refused value present on both sides (the classical off-by-one places)?  Returns (counters, missing)."""
+    have = set()
+    for c in cmds:
+        if c[0] == "V":
+            t = c.split()
+            have.add(tuple(map(int, t[1:7])))
+    counters = {}; missing = []
+    for (nm, ty, vs, bits, sh, dl) in USED_FORMATS + OTHER_FORMATS:
+        if bits == 0 or bits > 8 * vs or vs == 3:
+            continue
+        name = TYN[ty]
+        if name in ("signed", "adr", "adrp", "a32_blx", "t32_b", "t32_blx", "t32_bcond"):
+            lim = (1 << (bits - 1)) << dl
+            want = {"+limit (first refused)": lim, "+limit-1 (last accepted)": lim - (1 << dl),
+                    "-limit (last accepted)": -lim, "-limit-1 (first refused)": -lim - (1 << dl)}
+        elif name == "unsigned":
+            lim = (1 << bits) << dl
+            want = {"+limit (first refused)": lim, "+limit-1 (last accepted)": lim - (1 << dl), "0": 0, "-1 unit (refused)": -(1 << dl)}
+        else:
+            lim = (1 << bits) << dl
+            want = {"+limit (first refused)": lim, "+limit-1": lim - (1 << dl), "-limit (first refused)": -lim, "-limit+1": -lim + (1 << dl)}
+        for k, off in want.items():
+            if not (-(1 << 63) <= off < (1 << 63)):
+                continue
+            ok = (ty, vs, bits, sh, dl, off) in have
+            counters["%s: %s" % (nm, k)] = int(ok)
+            if not ok:
+                missing.append("%s: %s (offset %d)" % (nm, k, off))
+    return counters, missing
+
+
+def probe_t32(impl):
+    """Which Thumb-2 branch packers does the tree have?  b.w +2 is 0x2801 architecturally (J1 at bit 13), 0x4801 in the pinned tree."""
+    out = vlib.sh([impl], inp="V %d 4 24 0 1 2 0\nV %d 4 20 0 1 262144 0\n" % (TY["t32_b"], TY["t32_bcond"]))[1].split("\n")
+    b = out[0].split(); bc = out[1].split()
+    fb = b[:2] == ["V", "1"] and int(b[2]) == 0x2801
+    fc = bc[:2] == ["V", "1"] and int(bc[2]) == 0x2000
+    return ("f" if fb else "p") + ("f" if fc else "p")
+
+
+def llvm_mc_t32_reference():
+    """Independent validation of the oracle's Thumb-2 decoders (and of the fix): offsets assembled by llvm-mc
+    (-triple=thumbv7) must decode, with decode_field, to the offset asked for.  Returns (n_checked, errors)."""
+    cases = []
+    offs_b = [2, -2, 4094, 4096, 1 << 21, 1 << 22, -(1 << 22), (1 << 23) - 2, (1 << 24) - 2, -(1 << 24)] + [1 << k for k in range(1, 24)] + [-(1 << k) for k in range(1, 25)]
+    offs_x = [4, -4, 1 << 22, (1 << 24) - 4, -(1 << 24)] + [1 << k for k in range(2, 24)] + [-(1 << k) for k in range(2, 25)]
+    offs_c = [2, -2, 1 << 17, 1 << 18, 1 << 19, (1 << 20) - 2, -(1 << 20), -(1 << 18)] + [1 << k for k in range(1, 20)] + [-(1 << k) for k in range(1, 21)]
+    for o in offs_b:
+        cases.append(("b.w", "t32_b", 24, 1, o)); cases.append(("bl", "t32_b", 24, 1, o))
+    for o in offs_x:
+        cases.append(("blx", "t32_blx", 23, 2, o))
+    for o in offs_c:
+        cases.append(("bne.w", "t32_bcond", 20, 1, o))
+    src = "".join("%s #%d\n" % (c[0], c[4]) for c in cases)
+    rc, out, err = vlib.sh(["llvm-mc", "-triple=thumbv7", "-show-encoding"], inp=src, timeout=60)
+    encs = re.findall(r"encoding: \[([^\]]+)\]", out)
+    if rc != 0 or len(encs) != len(cases):
+        return 0, ["llvm-mc unavailable or rejected the reference input (rc=%s, %d/%d encodings)" % (rc, len(encs), len(cases))], []
+    errors = []; ref = []
+    for c, e in zip(cases, encs):
+        by = [int(x, 16) for x in e.split(",")]
+        w = ((by[0] | (by[1] << 8)) << 16) | (by[2] | (by[3] << 8))      # hw1:hw2, the layout of OffsetType::kThumb32_*
+        got = decode_field(TY[c[1]], 4, c[2], 0, c[3], w)
+        if got != c[4]:
+            errors.append("%s #%d assembled by llvm-mc to %#010x, oracle decodes %d" % (c[0], c[4], w, got))
+        ref.append((c[1], c[2], c[3], c[4], w & field_mask(TY[c[1]], 4, c[2], 0)))
+    return len(cases), errors, ref
 
 
 def judge(cmd, ans, logical_sets):
@@ -379,6 +527,49 @@ def judge(cmd, ans, logical_sets):
             if r is None or r != want:
                 return ("C17/mov-seq", "%s -> words %s leave %s in the register" % (cmd, [hex(w) for w in ws], None if r is None else hex(r)))
         return None
+    if c[0] == "X":
+        kind, x, va, vb = int(c[1]), int(c[2]), int(c[3]), int(c[4])
+        ok, sf, nbit, immr, imms = map(int, a[1:6])
+        size = 64 if x else 32; m = (1 << size) - 1
+        nm = BF_NAMES[kind]
+        if kind <= 6:
+            valid = va < size and 1 <= vb <= size - va
+        elif kind <= 9:
+            valid = va < size and vb < size
+        else:
+            valid = va < size
+        if not ok:
+            return ("C17/bitfield/spurious-refusal", "%s (%s) refused although the operands are encodable" % (cmd, nm)) if valid else None
+        if sf != x or nbit != x:
+            return ("C17/bitfield/sf-N", "%s (%s) -> sf=%d N=%d" % (cmd, nm, sf, nbit))
+        if not valid:
+            key = "C17/bitfield/insert-overflows-register" if 3 <= kind <= 6 and va < size and 1 <= vb <= size else "C17/bitfield/invalid-operands-accepted"
+            return (key, "%s (%s) accepted operands that have no encoding (immr=%d imms=%d)" % (cmd, nm, immr, imms))
+        if 7 <= kind <= 9:
+            return None if (immr, imms) == (va, vb) else ("C17/bitfield/raw-fields", "%s -> immr=%d imms=%d" % (cmd, immr, imms))
+        for src in (m, 0x0123456789ABCDEF & m, 0xF0E1D2C3B4A59687 & m, 1, 1 << (size - 1), 0xAAAAAAAAAAAAAAAA & m):
+            got = ubfm_pseudocode(size, immr, imms, src)
+            if kind <= 2:
+                want = (src >> va) & ((1 << vb) - 1)
+            elif kind <= 6:
+                want = (src & ((1 << vb) - 1)) << va
+            elif kind == 10:
+                want = (src << va) & m
+            else:
+                want = src >> va
+            if got != want:
+                return ("C17/bitfield/wrong-fields", "%s (%s) -> immr=%d imms=%d: UBFM of %#x gives %s, the alias means %#x" % (cmd, nm, immr, imms, src, None if got is None else hex(got), want))
+        return None
+    if c[0] == "E":
+        w, off, nb = int(c[1]), int(c[2]), int(c[3]); ok = int(a[1])
+        exp = -(1 << (nb - 1)) <= off < (1 << (nb - 1))
+        return None if bool(ok) == exp else ("C17/is-encodable-offset-%d" % w, "%s -> %d (a signed %d-bit field %s hold %d)" % (cmd, ok, nb, "can" if exp else "cannot", off))
+    if c[0] == "N":
+        kind, n, x = int(c[1]), int(c[2]), int(c[3]); ok = int(a[1])
+        if kind in (4, 5):
+            x = sext(x, 32)
+        exp = (-(1 << (n - 1)) <= x < (1 << (n - 1))) if kind in (0, 1, 4) else (0 <= x < (1 << n))
+        return None if ok == int(exp) else ("C17/is-%sint-n" % ("" if kind in (0, 1, 4) else "u"), "%s -> %d (expected %d)" % (cmd, ok, int(exp)))
     if c[0] == "H":
         sz, idx = int(c[1]), int(c[2]); ok = int(a[1])
         exp = sz in (1, 2) and idx <= (15 >> sz)
@@ -393,20 +584,24 @@ def judge(cmd, ans, logical_sets):
     return None
 
 
+def model_cmd(model):
+    return [model, T32_VARIANT["v"]]
+
+
 def run_pair(ck, impl, model, cmds, shards=16):
     """Run the same commands through implementation and model (sharded); returns (impl_lines, model_lines)."""
     chunks = [cmds[i::shards] for i in range(shards)]
 
     def one(args):
         exe, chunk = args
-        rc, out, err = vlib.sh([exe], inp="\n".join(chunk) + "\n", timeout=3000)
+        rc, out, err = vlib.sh(exe if isinstance(exe, list) else [exe], inp="\n".join(chunk) + "\n", timeout=3000)
         lines = out.split("\n")[:-1]
         if rc != 0 or len(lines) != len(chunk) or "GUARD-BROKEN" in out:
             return ("ERR", rc, (out[-500:] + err[-500:]))
         return lines
     with ThreadPoolExecutor(max_workers=shards) as ex:
         ri = list(ex.map(one, [(impl, c) for c in chunks]))
-        rm = list(ex.map(one, [(model, c) for c in chunks]))
+        rm = list(ex.map(one, [(model_cmd(model), c) for c in chunks]))
 
     def merge(rs):
         out = [None] * len(cmds)
@@ -428,14 +623,14 @@ def localise(ck, impl, model, cmd):
     while n > 4096:
         half = n // 2
         a = "R %d %d %d %d %d %d %d %d %d" % (ty, vs, bits, sh, dl, lo_i, half, step, old)
-        ri = vlib.sh([impl], inp=a + "\n")[1].strip(); rm = vlib.sh([model], inp=a + "\n")[1].strip()
+        ri = vlib.sh([impl], inp=a + "\n")[1].strip(); rm = vlib.sh(model_cmd(model), inp=a + "\n")[1].strip()
         if ri != rm:
             n = half
         else:
             lo_i = sext(lo_i + half * step, 64); n = n - half
     singles = ["V %d %d %d %d %d %d %d" % (ty, vs, bits, sh, dl, sext(lo_i + i * step, 64), old) for i in range(n)]
     ri = vlib.sh([impl], inp="\n".join(singles) + "\n")[1].split("\n")
-    rm = vlib.sh([model], inp="\n".join(singles) + "\n")[1].split("\n")
+    rm = vlib.sh(model_cmd(model), inp="\n".join(singles) + "\n")[1].split("\n")
     for s, x, y in zip(singles, ri, rm):
         if x != y:
             out.append((s, x, y))
@@ -449,13 +644,15 @@ def run(ck):
     impl = ck.build_harness("c17", ["c17_harness.cpp"])
     model = ck.ocaml_model("Extract_Codec.v", ["zconv.ml", "c17_driver.ml"], name="c17")
     logical_sets = {32: all_logical(32), 64: all_logical(64)}
+    T32_VARIANT["v"] = probe_t32(impl)
+    ck.log("Thumb-2 branch packers of the tree: %s" % T32_VARIANT["v"])
 
     if ck.replay:
         import json
         rp = json.load(open(ck.replay))
         cmds = rp["replay"].get("commands") or [rp["replay"]["command"]]
         for c in cmds:
-            print("input:", c); print(" impl :", vlib.sh([impl], inp=c + "\n")[1].strip()); print(" model:", vlib.sh([model], inp=c + "\n")[1].strip())
+            print("input:", c); print(" impl :", vlib.sh([impl], inp=c + "\n")[1].strip()); print(" model:", vlib.sh(model_cmd(model), inp=c + "\n")[1].strip())
             j = judge(c, vlib.sh([impl], inp=c + "\n")[1].strip(), logical_sets)
             print(" oracle:", "property holds" if j is None else j)
         return 0
@@ -467,6 +664,25 @@ def run(ck):
     if os.path.exists(corpus):
         cmds = [l.strip() for l in open(corpus) if l.strip() and not l.startswith("#")] + cmds
     ck.log("stream: %d commands" % len(cmds))
+    lim_counters, lim_missing = limit_coverage(cmds)
+    if lim_missing:
+        ck.violation("C17/generator/limits-not-covered", "the generated stream misses limit cases: %s" % lim_missing[:5],
+                     {"broken": "generator coverage of the field limits", "missing": lim_missing[:20]}, no_input=True)
+    # independent reference for the Thumb-2 decoders of the oracle (and, in a fixed tree, for the implementation): llvm-mc
+    n_ref, ref_errors, ref = llvm_mc_t32_reference()
+    for e in ref_errors[:5]:
+        ck.violation("C17/oracle/t32-decoder-vs-llvm-mc", e, {"broken": "python oracle decode_field (Thumb-2) vs llvm-mc"}, no_input=True)
+    ref_cmds = ["V %d 4 %d 0 %d %d 0" % (TY[t], bits, dl, off) for (t, bits, dl, off, w) in ref]
+    if ref_cmds:
+        outs = vlib.sh([impl], inp="\n".join(ref_cmds) + "\n")[1].split("\n")
+        for (t, bits, dl, off, w), c, o in zip(ref, ref_cmds, outs):
+            a = o.split()
+            if a[:2] == ["V", "1"] and int(a[2]) != w:
+                key = KNOWN_BAD_TYPES.get(t) or "C17/%s/wrong-field" % t
+                ck.violation(key, "%s (%s) stored %#x, llvm-mc -triple=thumbv7 encodes the same displacement as %#x" % (c, t, int(a[2]), w),
+                             {"command": c, "impl": o, "llvm_mc_field": w})
+            elif a[:2] != ["V", "1"]:
+                ck.violation("C17/%s/spurious-refusal" % t, "%s refused, llvm-mc encodes it as %#x" % (c, w), {"command": c, "impl": o})
     ri, rm = run_pair(ck, impl, model, cmds)
     if isinstance(ri, tuple) or isinstance(rm, tuple):
         bad = ri if isinstance(ri, tuple) else rm
@@ -515,12 +731,14 @@ def run(ck):
     return ck.finish(
         "proof",
         {"evaluations": evaluations, "distinct_nontrivial": len(nontrivial),
-         "rule": "commands T/R/V/L/A/F/B/I/M/H generated from VERIF_SEED (ranges enumerate whole fields up to 2^22 (quick) / 2^27 (thorough) offsets per format, "
+         "rule": "commands T/R/V/L/A/F/B/I/M/H/X/E/N generated from VERIF_SEED (ranges enumerate whole fields up to 2^21 (quick) / 2^27 (thorough) offsets per format, "
                  "dense at the limits; all logical-immediate values, all fp8, all A32 immediates, all 81 half-word classes); a case is non-trivial when the "
                  "encoder accepted at least one value of it (distinct command lines counted)",
          "samples": samples, "commands_by_kind": kinds, "single_cases_judged_by_oracle": n_single,
          "traces_validated_against_impl": len(cmds), "model_vs_impl_disagreements": disagreements,
-         "formats": [f[0] for f in USED_FORMATS + OTHER_FORMATS]},
+         "formats": [f[0] for f in USED_FORMATS + OTHER_FORMATS],
+         "limit_cases_present": lim_counters, "limit_cases_total": len(lim_counters), "limit_cases_missing": len(lim_missing),
+         "t32_variant_of_tree": T32_VARIANT["v"], "llvm_mc_t32_reference_cases": n_ref, "llvm_mc_t32_reference_errors": len(ref_errors)},
         assumptions=["the C++ harness calls the real functions of /repo's working tree (CodeWriterUtils::write_offset, arm::Utils::*, "
                      "a64 encode_mov_sequence_*/encode_lmh via #include of a64assembler.cpp)",
                      "theorems are about the Gallina model; the model is tied to the code by the differential run of this check",
